@@ -411,7 +411,7 @@ def world_violation(pid, r):
     if pid == "C02":
         if not r["c02d"]:
             return "a handle reported dead was reported alive again"
-        if code == 1 and op not in CREATION:
+        if code == 1 and op in (wg.D, wg.DM, wg.ED, wg.DA, wg.M, 20, 21, wg.JE, 23, wg.PROBE):
             return "aliveness / deletion result / entities join differs from the create-delete-maintain timeline (op %d: %s)" % (
                 pos, wg.NAMES.get(op, op))
     if pid == "C17":
@@ -800,6 +800,18 @@ def gen_world(pid, tier, seed, scale=1):
     for _ in range((300 if tier == "quick" else 3000) * scale):
         hists.append(wg.with_probes(wg.leak_pattern(rng)))
         stats["failing-batch patterns"] += 1
+    # deletions and creations requested from inside lazy closures (they take effect at the maintain after the one
+    # that runs the closure), observed by probing every handle
+    for _ in range((150 if tier == "quick" else 1500) * scale):
+        h = sg.lazy_history(rng, rng.randint(8, 40))
+        out = []
+        for op in h:
+            out.append(op)
+            if op[0] in (wg.M, wg.D, wg.ED, wg.DM):
+                out.append((wg.PROBE, []))
+                out.append((wg.JE, []))
+        hists.append(out)
+        stats["lazy closures creating / deleting entities, probed"] += 1
     if pid == "C17":
         for _ in range((6 if tier == "quick" else 40) * scale):
             # handle positions are unary numbers in the extracted model: a history referring to handle k costs O(k) per
